@@ -152,6 +152,21 @@ def check(rep, F, tier, replay=None):
                 rep.violation("AS-u64", "bits|%s" % sorted(set(lims)), "BigInt::as_u64 answers Some only for values of at most %s bits; every value below 2^64 (64 bits) fits: script / reference-script fees in [2^%d, 2^64) are reported as overflow although the result is representable" % (sorted(set(lims)), min(lims)), {})
         else:
             rep.lost("BigInt::as_u64 neither matches the digit count nor compares bits() (re-anchor AS-u64)")
+    # ERR-hand: the fee functions fail only where the arithmetic fails
+    rep.rule("ERR-hand", "the fee functions (min_fee, min_script_fee, min_ref_script_fee, tier_ref_script_fee, calculate_ex_units_ceil_cost, min_fee_for_size, min_no_script_fee) build an error of their own only at the audited sites (invalid multiplier / zero size increment): every other failure is a propagated checked-arithmetic or conversion error, so a result that fits into 64 bits is returned - a hand-written `this cannot fit` guard on the inputs reports overflow for results that do fit")
+    ERR_OK = {"fees::tier_ref_script_fee": 1}
+    n_e = 0
+    for key_ in ("fees::min_fee", "fees::min_script_fee", "fees::min_ref_script_fee", "fees::tier_ref_script_fee", "fees::calculate_ex_units_ceil_cost", "fees::min_fee_for_size", "fees::min_no_script_fee"):
+        ids_ = [f for f in F.fns if f.endswith(key_) and "/tests/" not in F.fns[f]["file"]]
+        for fid_ in ids_:
+            n_e += 1
+            rep.inst("ERR-hand")
+            cnt = 0
+            for sub in [fid_] + [x for x in F.fns if x.startswith(fid_ + "::{closure")]:
+                cnt += sum(1 for c in F.calls(sub) if (c.to or "").endswith("JsError::from_str") or (c.to or "").endswith("JsError::new"))
+            if cnt > ERR_OK.get(key_, 0):
+                rep.violation("ERR-hand", key_, "%s builds %d error(s) of its own (%d audited): a guard on the inputs such as `tiers >= 244 -> does not fit` is wrong for small prices - size 6 246 400 at 1/1 000 000 per byte has the exact fee 2 675 678 970 181 565 804, which fits into 64 bits" % (key_, cnt, ERR_OK.get(key_, 0)), {})
+    rep.floor("fee functions inspected for hand-written errors", 6, n_e)
     return rep.finish(
         EXPLANATION,
         ["num-bigint's div_ceil / div_floor / pow are exact", "the closed-form geometric sum equals the tier-by-tier definition (not decided)"],
